@@ -94,7 +94,9 @@ def search(ctx, prop=None):
     for m, desc, ys in todo:
         for y in ys:
             for v in advstmt.stmt_balance(m, y, desc):
-                if v["prop"] == prop: V.append(v)
+                # C05's "the returned derivative is exactly the signed sum of the enabled terms" fails whenever a block balance of the
+                # returned derivative against the reported terms fails
+                if v["prop"] == prop or (prop == "C05" and v["key"]["clause"] in ("dn_balance", "thermal_energy_balance")): V.append(v)
             if prop == "C05":
                 V += advstmt.stmt_rates(m, y, desc)
             ctx.count("search_states")
